@@ -436,4 +436,60 @@ theorem copy_result_wf (ws : List (Nat × Bytes)) (fs : List (Nat × Bytes)) (wf
     · exact wfw.tags f hf
     · exact wf.tags f ((copiedOf_mem _ fs wf f).mp hf).1
 
+
+/-! ### Copy at any depth = writing the absent source fields raw -/
+
+/-- the source fields a message in state `st` (top entry `m`) takes over -/
+def copiedIn (st : WState) (m : Entry) (fs : List (Nat × Bytes)) : List (Nat × Bytes) :=
+  (srcOf fs).filter fun f => !hasTag st m f.1
+
+/-- the calls `Field(tag).Any(value)` for a list of `(tag, value)` -/
+def rawFields (h : Nat) (xs : List (Nat × Bytes)) : List Call := xs.map fun f => Call.f h f.1 f.2
+
+theorem addFld_stack (st : WState) (v : Bytes) (t : Nat) (m : Entry) : (addFld st v t m).stack = st.stack := rfl
+
+/-- raw field writes into the message on top of the stack, through a live handle -/
+theorem run_rawFields (h : Nat) (base : List Entry) (m : Entry) (hm : m.type_ = .message) :
+    ∀ (xs : List (Nat × Bytes)) (s : Sess) (idx : Nat) (st : WState),
+      s.w.err = none → s.w.st = some st → st.stack = base ++ [m] → m.tableStart ≤ st.fields.length →
+      s.handles[h]? = some ⟨.M, false⟩ →
+      (runFrom s idx (rawFields h xs)).1 = { s with w := setSt s.w (addAll m xs st) } ∧
+        AllOk (runFrom s idx (rawFields h xs)).2 := by
+  intro xs
+  induction xs with
+  | nil =>
+    intro s idx st he hs _ _ _
+    simp only [rawFields, List.map_nil, runFrom, addAll, List.foldl_nil]
+    exact ⟨by rw [setSt_self s.w st hs], AllOk_nil⟩
+  | cons f rest ih =>
+    intro s idx st he hs hst hts hh
+    simp only [rawFields, List.map_cons]
+    rw [runFrom_cons, step_f s idx h f.1 f.2 st base m he hs hst hm hts hh]
+    simp only
+    obtain ⟨h1, h2⟩ := ih { s with w := setSt s.w (addFld st f.2 f.1 m) } (idx + 1) (addFld st f.2 f.1 m)
+      (by simpa using he) rfl (by rw [addFld_stack]; exact hst) (addFld_fields_len st m f.2 f.1 hts) hh
+    refine ⟨?_, AllOk_cons _ h2⟩
+    simp only [rawFields] at h1
+    rw [h1]
+    simp [addAll]
+
+/-- `Copy`/`Merge` from a well-formed source into the message that is being written — at ANY nesting
+depth, whatever was written before — is answered `ok` and leaves the session exactly as the calls
+`Field(tag).Any(value)` for the source fields whose tag the message does not have yet would (in the
+order of the source table). Together with `run_compRoot` this reduces every tree program with
+Copy/Merge calls to a tree program without them. -/
+theorem copy_eq_rawFields (s : Sess) (idx idx' h : Nat) (st : WState) (base : List Entry) (m : Entry)
+    (p : Bytes) (fs : List (Nat × Bytes)) (wf : MsgWF fs) (hd : ∀ f ∈ fs, Delim f.2)
+    (he : s.w.err = none) (hs : s.w.st = some st) (hst : st.stack = base ++ [m]) (hm : m.type_ = .message)
+    (hts : m.tableStart ≤ st.fields.length) (hh : s.handles[h]? = some ⟨.M, false⟩) :
+    step s idx (.copy h (p ++ encMsg fs)) = ((runFrom s idx' (rawFields h (copiedIn st m fs))).1, .ok) ∧
+      AllOk (runFrom s idx' (rawFields h (copiedIn st m fs))).2 := by
+  obtain ⟨M, hopen, hview⟩ := src_view p fs wf hd
+  have hcopy := copyMsg_spec s.w st idx (p ++ encMsg fs) M (srcOf fs) base m hopen hview he hs hst hm hts
+  rw [copyFold_filter m (srcOf fs) st (srcOf_tags_nodup fs wf) hts] at hcopy
+  obtain ⟨h1, h2⟩ := run_rawFields h base m hm (copiedIn st m fs) s idx' st he hs hst hts hh
+  refine ⟨?_, h2⟩
+  rw [step_copy_ok s idx h _ _ hh hcopy, h1]
+  rfl
+
 end SpecVerif.Writer
